@@ -26,16 +26,28 @@ print('captured-output')
 """
 
 
+DUMPER2 = """import hashlib, json, os, sys
+args = sys.argv[2:]
+json.dump(args, open(os.path.join(sys.argv[1], hashlib.sha1(json.dumps(args).encode()).hexdigest() + '.json'), 'w'))
+"""
+
+
 def gen(rnd, n):
     items = []
     for i in range(n):
         mode = MODES[i % len(MODES)]
         args = [rnd.choice(ARGS) for _ in range(rnd.randint(1, 3))]
         items.append((i, mode, args))
-    lines = ["project('argv')", "py = find_program('python3')", "dumper = files('dump.py')", "side = meson.current_build_dir() / 'side'"]
+    # commands that are pickled (an argument contains a newline) and whose argument lists differ only in where the boundaries fall
+    for args in (['x\ny', 'z'], ['x\nyz'], ['x\n', 'yz'], ['-D', 'FOO=1\n'], ['-DFOO=1\n']):
+        items.append((len(items), 'pickled', args))
+    lines = ["project('argv')", "py = find_program('python3')", "dumper = files('dump.py')", "dumper2 = files('dump2.py')", "side = meson.current_build_dir() / 'side'"]
     for i, mode, args in items:
         cmd = "[py, dumper, side / 'a%d.json', " % i + ', '.join(mstr(a) for a in args) + ']'
-        if mode == 'plain':
+        if mode == 'pickled':
+            # identical command prefix for all of them: only the argument boundaries tell them apart
+            lines.append(f"custom_target('p{i}', output: 'o{i}.out', command: [py, dumper2, side, " + ', '.join(mstr(a) for a in args) + "])")
+        elif mode == 'plain':
             lines.append(f"custom_target('p{i}', output: 'o{i}.out', command: {cmd})")
         elif mode == 'capture':
             lines.append(f"custom_target('p{i}', output: 'o{i}.out', command: {cmd}, capture: true)")
@@ -225,6 +237,7 @@ def _argv_chunk(chunk):
             os.makedirs(src)
             open(os.path.join(src, 'meson.build'), 'w').write(text)
             open(os.path.join(src, 'dump.py'), 'w').write(DUMPER)
+            open(os.path.join(src, 'dump2.py'), 'w').write(DUMPER2)
             r = subprocess.run([sys.executable, os.path.join(repo, 'meson.py'), 'setup', build, src], capture_output=True, text=True, env=dict(os.environ, NINJA=stub_ninja(d)))
             if r.returncode != 0:
                 fails.append({'case': {'generator_seed': seed}, 'stage': 'argv-e2e', 'detail': 'setup failed: ' + (r.stdout + r.stderr)[-300:]})
@@ -248,6 +261,14 @@ def _argv_chunk(chunk):
                         if pr.returncode != 0:
                             fails.append({'case': case, 'stage': 'argv-e2e', 'detail': f'{mode}: the command failed when executed: ' + (pr.stdout + pr.stderr)[-300:]})
                             continue
+                    if mode == 'pickled':
+                        import hashlib
+                        exp = [a.replace('\\', '/') for a in args]
+                        want = os.path.join(build, 'side', hashlib.sha1(json.dumps(exp).encode()).hexdigest() + '.json')
+                        if not os.path.exists(want):
+                            others = sorted(f for f in os.listdir(os.path.join(build, 'side')) if len(f) == 45)
+                            fails.append({'case': case, 'stage': 'argv-e2e', 'detail': f'pickled command: the program was not started with {exp!r} (it ran with the argv of another command)'})
+                        continue
                     if not os.path.exists(side):
                         fails.append({'case': case, 'stage': 'argv-e2e', 'detail': f'{mode}: the program was not started (no argv dump)'})
                         continue
@@ -279,7 +300,7 @@ def run(REG, tier, seed, jobs):
               'bound': f'{m} generated C projects: 3 of {len(CARGS)} per-target c_args and 2 of {len(LARGS)} link_args with blanks, quotes, $, #, ;, *, backslashes, non-ASCII; the compile and link statements of build.ninja are evaluated by a mini ninja reader and executed by /bin/sh',
               'evaluations': ev2, 'distinct_nontrivial': nt2, 'rule': 'every compile / link statement', 'exhaustive': False, 'failures': fails2}
     return {'parts': [ccpart, {'name': 'C03/bounded/argv-end-to-end-through-meson-setup', 'function': 'meson setup (ninja back end, stub ninja): custom_target / run_target / test commands',
-                       'bound': f'{n} generated projects x 24 commands: 1-3 arguments over {len(ARGS)} strings (blanks, quotes, $, #, ;, globs, backslashes, non-ASCII, tab, newline, ...) in 6 modes (plain, capture, env, feed, run_target, test)',
+                       'bound': f'{n} generated projects x 29 commands (5 of them pickled commands differing only in their argument boundaries): 1-3 arguments over {len(ARGS)} strings (blanks, quotes, $, #, ;, globs, backslashes, non-ASCII, tab, newline, ...) in 6 modes (plain, capture, env, feed, run_target, test)',
                        'evaluations': ev, 'distinct_nontrivial': nt, 'rule': 'every command', 'exhaustive': False, 'failures': fails}]}
 
 
